@@ -308,7 +308,7 @@ def _gen_tapscript(rng):
     return dict(script=s, inputs=inputs, flags=rng.choice(_TAP_FLAGS))
 
 
-@contract("contracts.c_engine.tapscript_verdict", gen=_gen_tapscript, props="C08 C19", n_quick=1200, n_thorough=40000,
+@contract("contracts.c_engine.tapscript_verdict", gen=_gen_tapscript, props="C08 C19", n_quick=1200, n_thorough=12000,
           rule="signature-free tapscripts spent through the script path: the programs of EngineVerdictBounded, every class of byte (0xff, reserved, OP_VERIF, legacy-disabled = OP_SUCCESS, CHECKMULTISIG, upgradable NOPs, CHECKSIGADD on an empty stack) in a branch not taken / ahead of an OP_SUCCESSx / executed, OP_SUCCESS next to truncated and oversized pushes, 201..500 executed ops, 10 kB scripts, 999..1001 stack elements, non-minimal conditions; four flag sets")
 class TapscriptVerdictBounded:
     """accepts exactly when Core's tapscript execution (OP_SUCCESS pre-scan, initial stack
